@@ -458,7 +458,7 @@ Definition finish_sync (c : ccfg) (parent : json) (observed : umap) (r : hook_re
                              else Ret false) ;;
                   sr <~ update_parent_status c parent (hr_status r) ;;
                   match sr with
-                  | RErr ENotFound | RErr EConflict => Ret SDone
+                  | RErr ENotFound | RErr EConflict => Ret (if failed then SErr else SDone)
                   | RErr _ => Ret SErr
                   | ROk _ => Ret (if failed then SErr else SDone)
                   end
